@@ -1024,3 +1024,43 @@ theorem C16_facts_lts_statements :
     statementsOf GB.Generated.c16RemoveTrace = removeStatements ∧
     GB.Generated.c16AddTrace.take 2 = ["lock", "defer-unlock"] ∧
     GB.Generated.c16RemoveTrace.take 2 = ["lock", "defer-unlock"] := by decide
+
+/-! ## the connectivity state machine as environment of waitForReady (seeded C01-m10, C12-m9) -/
+
+open GB.C16.Conn in
+/-- Connect is requested whenever a wait observes IDLE: with the code's guard (`always`), a Stream on a non-closed
+    connection to a reachable target reaches READY from EVERY channel state and every value of any once-flag — in
+    particular after the channel fell back to IDLE any number of times. -/
+theorem C16_wait_connects_whenever_idle (c : Chan) (dl tested : Bool) (h : c.st ≠ .shutdown) :
+    (waitCall .always dl tested true c).1 = .ready ∧ (waitCall .always dl tested true c).2.st = .ready := by
+  obtain ⟨st, rq⟩ := c
+  cases st <;> simp_all [waitCall]
+
+open GB.C16.Conn in
+/-- … hence any sequence of calls interleaved with drops to IDLE always ends READY. -/
+theorem C16_wait_idle_again_any_number_of_times (n : Nat) (c : Chan) (h : c.st ≠ .shutdown) :
+    (Nat.rec (motive := fun _ => Chan) c (fun _ acc => (waitCall .always false true true (dropToIdle acc)).2) n).st ≠ .shutdown ∧
+    (waitCall .always false true true (dropToIdle
+      (Nat.rec (motive := fun _ => Chan) c (fun _ acc => (waitCall .always false true true (dropToIdle acc)).2) n))).1 = .ready := by
+  constructor
+  · induction n with
+    | zero => exact h
+    | succ n ih => simp [waitCall, dropToIdle]
+  · simp [waitCall, dropToIdle]
+
+open GB.C16.Conn in
+/-- The wait returns when WaitForStateChange reports that the context is over: with a deadline and the result tested,
+    no call waits for ever, whatever the channel does (reachable or not, any guard). -/
+theorem C16_wait_returns_when_ctx_ends (g : ConnectGuard) (reachable : Bool) (c : Chan) :
+    (waitCall g true true reachable c).1 ≠ .waitsForever := by
+  obtain ⟨st, rq⟩ := c
+  cases st <;> cases g <;> cases rq <;> cases reachable <;> simp [waitCall]
+
+open GB.C16.Conn in
+/-- Negative witnesses (kernel `decide`): the once-guard (C01-m10) leaves the second call after a drop to IDLE waiting
+    for ever; ignoring WaitForStateChange's result (C12-m9) leaves a call with a deadline to an unreachable target
+    without end. -/
+theorem C16_once_guard_or_ignored_result_wait_forever :
+    secondCall .once = .waitsForever ∧ secondCall .always = .ready ∧
+    (waitCall .always true false false { st := .idle, requested := false }).1 = .waitsForever ∧
+    (waitCall .always true true false { st := .idle, requested := false }).1 = .endsWithCtx := by decide
